@@ -9,7 +9,10 @@ THEOREMS = ['C09.decode_encode', 'C09.loads_dumps', 'C09.encode_injective', 'C09
 
 RICH = [0, -1, 2 ** 70, -10 ** 30, 0.1, -2.5e-7, 1e+20, 3.141592653589793, 5e-324, 1.7976931348623157e+308,
         'plain', '', 'ü', 'quote"back\\slash', 'tab\tnl\n', '\u0001', '日本語', '\U0001F600 astral', None, True, False,
-        [1, [2, [3, []]]], {'a': 1, 'z': {'y': [None, 'x']}, 'b': []}, [], {}, [0.5, 'x', None]]
+        [1, [2, [3, []]]], {'a': 1, 'z': {'y': [None, 'x']}, 'b': []}, [], {}, [0.5, 'x', None],
+        # strings that spell JSON literals and number tokens (a text-level rewrite of the encoded form must not touch them)
+        'NaN', 'SNR was NaN here', 'Infinity', 'gain -Infinity dB', 'null', 'true', 'false', '1e5', '-0', '[1, 2]', '{"a": 1}',
+        '    four spaces', 'trailing spaces    ', 'a,\n    b', ': colon, comma', {'NaN': 'Infinity', 'null': None}]
 
 
 def tree(v):
@@ -49,7 +52,7 @@ def gen_ext(r, tier):
     case = SM.gen_subset_case(r, tier)
     ext = SM.build_parent(case)
     # replace values by rich ones, keeping counts; shuffle key names to non-sorted, unicode keys
-    names = ['zeta', 'Alpha', 'kü', 'b b', 'k"q', '\U0001F600', 'Mid', 'a.b.c', '0num']
+    names = ['zeta', 'Alpha', 'kü', 'b b', 'k"q', '\U0001F600', 'Mid', 'a.b.c', '0num', 'NaN voxel count', 'null', 'Infinity', 'true', 'in    dent']
     r.shuffle(names)
     for cls in ext.get_valid_classes():
         d = ext.get_class_dict(cls)
